@@ -370,6 +370,33 @@ def planner(facts, rep):
     rep.tables["planner_vs_protocol"] = table
     product_sets_agree(facts, rep, pl, vs)
     rep.floor("C02.K", "variants compiled with an interactive protocol", n_protocol, 10)
+    # a node the planner marked is reshared whatever its operation: with every membership test on nodes_to_reshare (and on
+    # private_nodes) taken to be true, under each Operation variant every path to out_mapping.insert_node passes through
+    # reshare() or through a multiplication helper that is handed the membership result as its `reshare` flag
+    flc = Flow(facts, cg, EXTRA)
+    marks = [bb for bb, t in cg.calls() if (callee_name(t) or "").endswith("::contains") and not cg.is_cleanup(bb)
+             and "HashSet" in (callee_name(t) or "")]
+    ins_all = [bb for bb, t in cg.calls() if (callee_name(t) or "").endswith("ContextMappings::insert_node") and not cg.is_cleanup(bb)]
+    if marks and ins_all:
+        resh_direct = [bb for bb, t in cg.calls() if (callee_name(t) or "").endswith("resharing::reshare") and not cg.is_cleanup(bb)]
+        flagged = [bb for bb, t in cg.calls() if not cg.is_cleanup(bb) and (callee_name(t) or "").startswith("mpc::") and
+                   any(a[0] != "k" and cg.local_ty(a[1][0]) == "bool" and
+                       any(o[0] == "call" and o[1] in marks for o in flc.origins(a, (bb, None))) for a in t["args"])]
+        errs_ = C.error_exit_blocks(cg)
+        notre = []
+        for idx, vname in vs:
+            res_ = V.Interp(facts, idx, site_values={(cg.id, m_): ("b", True) for m_ in marks}).run(cg)
+            live_ins = [i_ for i_ in ins_all if i_ in res_.blocks]
+            if not live_ins:
+                continue
+            removed_ = {(x, y) for x, y in C.edges(cg) if (x, y) not in res_.edges}
+            if not C.must_pass(cg, 0, live_ins, set(resh_direct) | set(flagged) | errs_, removed_edges=removed_, after=False):
+                notre.append(vname)
+        rep.ob("C02.K", "marked-node-is-reshared", not notre,
+               "for every Operation variant a node found in nodes_to_reshare reaches the mapping only through reshare() (or a "
+               "multiplication that is told to reshare)" if not notre else
+               "a node the planner marked for resharing is put into the mapping un-reshared when its operation is %s: the 3-out-of-3 "
+               "value is then revealed or consumed as if it were replicated" % sorted(notre)[:8], cg.loc(ins_all[0]))
     # the mapping entry of a to-be-reshared node is produced by reshare
     fl = Flow(facts, cg, EXTRA)
     resh_calls = [bb for bb, t in cg.calls() if (callee_name(t) or "").endswith("resharing::reshare") and not cg.is_cleanup(bb)]
